@@ -65,7 +65,8 @@ CHECK = {'level': 'exploration',
          'reference map. Non-trivial length-forged case = the set contains a false claim AND (it passes the input checks of Verify = reaches the '
          'hashing stage, OR every query of it still hashes to the real root with the honest sibling hashes, i.e. only field validation can reject '
          'it); labels resplit-*:stage=..., resplit-*:reached-CalculateRoot(hashing stage), resplit-*:every-query-still-hashes-to-the-real-root, '
-         'resplit-*:false-claim-AND-hashes-to-the-real-root:<class>, resplit-*:proofkey-length=L+1/L-1/L+8/2L/0/..., resplit-*:class/variant/set/target',
+         'resplit-*:false-claim-AND-hashes-to-the-real-root:<class>, resplit-*:proofkey-length=L+1/L-1/L+8/2L/0/..., resplit-*:class/variant/set/target'
+         " Result lifetime (TestHistory): every Prove result and the root slice Update returned are kept in the caller's hands through all later Prove calls and batches of the history; after each of them the held proof objects must be unchanged and must still verify against the root they were generated for (label held-proof-rechecked).",
  'level_text': 'Differential test of trie.Update against an independent naive LIP-0039 root (recursion over key bits, no subtrees) after every '
                'batch of generated histories on three store kinds with reopen, plus model-free history-independence checks; completeness of '
                'Prove/Verify with the answers checked against the map; soundness under 20 kinds of tampering of honest proofs and under '
